@@ -47,9 +47,10 @@ def c11_script(hist, stype, scen, variant):
     return {"scen": scen, "sock": stype, "ops": ops}
 
 
-def c12_withheld_script(stype, scen, k, after):
+def c12_withheld_script(stype, scen, k, after, between=False):
     """a subscriber stalls in the middle of a message and resumes: everything that was accepted for it (far below the high-water
-    mark: nothing may be dropped) must reach it without the publisher having to publish something that matches it again"""
+    mark: nothing may be dropped) must reach it without the publisher having to publish something that matches it again.
+    between: the socket's tasks run between the publishes (OutBuf: the flusher is armed, the next publish takes its wake-up)"""
     ops = []
     for c in (1, 2):
         ops.append({"op": "attach", "c": c, "ptype": "SUB"})
@@ -63,6 +64,8 @@ def c12_withheld_script(stype, scen, k, after):
         m = [hx(first), hx("tag%d.%d" % (scen, i))]
         msgs.append(m)
         ops.append({"op": "send", "m": m, "note": {"first": list(first[:16])}})
+        if between:
+            ops.append({"op": "settle"})
     ops += [{"op": "settle"}, {"op": "credit", "c": 2}, {"op": "settle"}]
     if after == "other-topic":
         for j in range(5):
@@ -71,7 +74,7 @@ def c12_withheld_script(stype, scen, k, after):
         ops.append({"op": "settle"})
     for m in msgs:
         ops.append({"op": "expect_wire", "c": 2, "m": m})
-    return {"scen": scen, "sock": stype, "ops": ops, "tag": "withheld/%d/%s" % (k, after), "nojitter": True}
+    return {"scen": scen, "sock": stype, "ops": ops, "tag": "withheld/%d/%s/%d" % (k, after, between), "nojitter": True}
 
 
 def c12_script(rng, stype, scen):
